@@ -110,6 +110,8 @@ fn fill(item: &Payload, cols: &mut [Utf32String], burn: u32, panic_here: bool) {
     if burn > 0 {
         sim::fault("F1.writer_held_in_flight");
     }
+    // user code writes into library-owned memory: report it to the happens-before monitor
+    nucleo_verif_rt::hb::plain_write(cols.as_ptr() as usize, "fill callback (writes the matcher columns)");
     let n = cols.len();
     for (c, col) in cols.iter_mut().enumerate() {
         if panic_here && c == n / 2 {
@@ -119,6 +121,7 @@ fn fill(item: &Payload, cols: &mut [Utf32String], burn: u32, panic_here: bool) {
         let t: &str = &item.texts[c];
         *col = alloc::tracked(|| Utf32String::from(t));
     }
+    nucleo_verif_rt::hb::plain_write(cols.as_ptr() as usize, "fill callback (wrote the matcher columns)");
     ledger::mark_stored(item.uid);
     nucleo_verif_rt::point("fill.end");
 }
